@@ -11,7 +11,7 @@ Init == l = 1 /\ mon = MonInit /\ au = AuInit
 
 Step(a, m, e) ==
   CASE e.ev = "begin" -> AuInit
-    [] e.ev = "authfile" -> [a EXCEPT !.file = Edit(a.file, e.num = 1, SeqRange(e.slots))]
+    [] e.ev = "authfile" -> [a EXCEPT !.file = Edit(a.file, e.cls, e.num = 1, SeqRange(e.slots))]
     [] e.ev = "authsettled" ->
          IF SeqRange(e.slots) = Admitted(a.file, Universe) THEN a
          ELSE [a EXCEPT !.viol = @ \cup {<<"C18", "", 0, "admitted-set-differs-from-file">>}]
